@@ -1530,10 +1530,12 @@ class TransactionBuilder:
         if not collateral_return_address:
             return
 
+        # The fee of the final transaction is at most the maximum fee plus the fee buffer, if any.
+        fee_upper_bound = max_tx_fee(
+            context=self.context, ref_script_size=self._ref_script_size()
+        ) + (self.fee_buffer or 0)
         collateral_amount = (
-            max_tx_fee(context=self.context, ref_script_size=self._ref_script_size())
-            * self.context.protocol_param.collateral_percent
-            + 99
+            fee_upper_bound * self.context.protocol_param.collateral_percent + 99
         ) // 100
 
         if not self.collaterals:
